@@ -146,7 +146,7 @@ fn sym_show(kind: usize, s: usize) -> String {
     let p = s % NPART;
     let f = s / NPART;
     match kind {
-        1 => format!("{}|getter {}|inner.update {}", part_show(p), ["P", "P'", "N", "E1"][f % 4], if f / 4 == 0 { "Ok" } else { "E2" }),
+        1 => format!("{}|getter {}|inner.update {}", part_show(p), ["P", "P'", "N", "E1", "Z (fixed timestamp, position +0 / -0 alternating)"][f % 5], if f / 5 == 0 { "Ok" } else { "E2" }),
         _ => format!("{}|inner {}|inner.update {}", part_show(p), if f % 2 == 0 { "accepts" } else { "rejects" }, if f / 2 == 0 { "Ok" } else { "E2" }),
     }
 }
@@ -279,14 +279,17 @@ fn run_case(kind: usize, seq: &[usize], e: &mut Eng) -> u64 {
                     let (part, f) = (s % NPART, s / NPART);
                     let now = round_time(k);
                     apply_partner(&x, part, now, &mut last_state_t);
-                    let inner: Output<State, E> = match f % 4 {
+                    let inner: Output<State, E> = match f % 5 {
                         0 => Ok(Some(Datum::new(Time(now - 7), State::new_raw(0.1 + k as f32, -7.3, 1e3)))),
                         1 => Ok(Some(Datum::new(Time(-now), State::new_raw(-0.0, f32::MIN_POSITIVE, 3.0)))),
                         2 => Ok(None),
-                        _ => Err(err_at(k)),
+                        3 => Err(err_at(k)),
+                        // a re-reported datum: always the same timestamp, and a state that differs from the
+                        // previous report only in the sign of a zero (equal under `==`, not the same value)
+                        _ => Ok(Some(Datum::new(Time(-1_000), State::new_raw(if k % 2 == 0 { 0.0 } else { -0.0 }, if k % 2 == 0 { -0.0 } else { 0.0 }, 3.0)))),
                     };
                     st.borrow_mut().next = inner.clone();
-                    st.borrow_mut().update_result = if f / 4 == 0 { Ok(()) } else { Err(upd_error(k)) };
+                    st.borrow_mut().update_result = if f / 5 == 0 { Ok(()) } else { Err(upd_error(k)) };
                     let upd0 = st.borrow().updates;
                     let own0 = (own_state(w.get_terminal()), own_cmd(w.get_terminal()));
                     let xown0 = (own_state(&x), own_cmd(&x));
@@ -300,7 +303,7 @@ fn run_case(kind: usize, seq: &[usize], e: &mut Eng) -> u64 {
                     if (own_state(&x), own_cmd(&x)) != xown0 || own1.1 != own0.1 {
                         return fail("foreign-slot-written", "only the wrapper's own state slot may be written".into());
                     }
-                    let upd_err = f / 4 != 0;
+                    let upd_err = f / 5 != 0;
                     match (&inner, upd_err) {
                         (_, true) => {
                             if res != Err(upd_error(k)) {
@@ -415,7 +418,7 @@ pub fn run(ctx: &Ctx) -> Vec<Eng> {
     let mut out = Vec::new();
     for kind in 0..3 {
         let name = ["actuator", "encoder", "pid-wrapper"][kind];
-        let flags = if kind == 1 { 8 } else { 4 };
+        let flags = if kind == 1 { 10 } else { 4 };
         let nsym = NPART * flags;
         let depth_full = if ctx.thorough { 4 } else { 3 };
         let depth_part = if ctx.thorough { 7 } else { 6 };
@@ -423,7 +426,7 @@ pub fn run(ctx: &Ctx) -> Vec<Eng> {
             &format!("c20-{}", name),
             match kind {
                 0 => "ActuatorWrapper connected to a partner terminal: all sequences of rounds, a round = partner receives one of {nothing, state A/B new, command A/B new, both, state with the same timestamp, state with an older timestamp} x inner settable {accepts, rejects} x inner update {Ok, E2}, then update(wrapper); oracle: the recorded set argument = the combined read taken at the terminal just before (nothing if absent), then exactly one inner update, rejection / inner error returned, terminal never written; non-trivial = terminal saw data",
-                1 => "GetterStateDeviceWrapper: rounds = partner option x inner getter {P, P' (negative time, -0, subnormal), N, E1} x inner update {Ok, E2}; oracle: exactly one inner update; present state written bit-for-bit with its time into the wrapper's own state slot; absent/error leave it untouched; errors returned; no other slot written; non-trivial = a present state was relayed",
+                1 => "GetterStateDeviceWrapper: rounds = partner option x inner getter {P, P' (negative time, -0, subnormal), N, E1, Z (a re-reported datum: fixed timestamp, zeros whose sign alternates from round to round)} x inner update {Ok, E2}; oracle: exactly one inner update; present state written bit-for-bit with its time into the wrapper's own state slot; absent/error leave it untouched; errors returned; no other slot written; non-trivial = a present state was relayed",
                 _ => "PIDWrapper over a recording motor: rounds = partner option x motor {accepts, rejects} x motor update {Ok, E2}; oracle: a stand-alone real CommandPID fed the (time, state, command) the terminal sees each round must output exactly the f32 the motor records (initial time later than the first data, timestamps that stand still or step back included); non-trivial = terminal saw data",
             },
             &format!("all {}^{} sequences over the full alphabet + all {}^{} sequences over the partner options alone", nsym, depth_full, NPART, depth_part),
